@@ -316,3 +316,31 @@ def b_sorted_asc(self, ex, st, node):
 
 
 type(LIB).b_sorted_asc = b_sorted_asc
+
+
+@libfn("np.where", "numpy.where", stmt="np.where(c, a, b): element-wise a where c holds, b elsewhere (scalars broadcast)")
+def _where(ex, st, node):
+    c, a, b = [ex.ev(st, x) for x in node.args]
+    if not (isinstance(c.t, TSeq) and c.t.elem == BOOL):
+        raise Unsupported("np.where condition %s" % c.t)
+    n = ex.seq_len(c)
+    ca = c.t.arr(c.z)
+
+    def at(v, j):
+        if isinstance(v.t, TSeq):
+            return SV(v.t.elem, v.t.arr(v.z)[j])
+        return v
+    for v in (a, b):
+        if isinstance(v.t, TSeq) and not st.spec:
+            ex.oblige(st, "safety.broadcast", ex.seq_len(v) == n, "safety", node, "np.where operands have equal length")
+    ea, eb = at(a, z3.Int("w_probe")), at(b, z3.Int("w_probe"))
+    t = REAL if REAL in (ea.t, eb.t) else (INT if INT in (ea.t, eb.t) else ea.t)
+
+    def val(j):
+        x, y = at(a, j), at(b, j)
+        if t == REAL:
+            return z3.If(ca[j], ex.to_real(x), ex.to_real(y))
+        if t == INT:
+            return z3.If(ca[j], ex.to_int(x), ex.to_int(y))
+        return z3.If(ca[j], x.z, y.z)
+    return ex.new_seq(st, t, n, val, "nd", "where")
